@@ -403,3 +403,267 @@ Section Order.
     - assert (par j < j) by (apply par_lt; lia). lia.
   Qed.
 End Order.
+
+(* ---------------- Part C: multiset and frame ---------------- *)
+Lemma upd_perm : forall l i v, i < length l -> Permutation (el l i :: upd l i v) (v :: l).
+Proof.
+  induction l as [|a l IH]; intros [|i] v H; simpl in H; try lia.
+  - unfold el. simpl. apply perm_swap.
+  - change (el (a :: l) (S i)) with (el l i). change (upd (a :: l) (S i) v) with (a :: upd l i v).
+    eapply perm_trans; [apply perm_swap|]. eapply perm_trans; [|apply perm_swap].
+    apply perm_skip. apply IH. lia.
+Qed.
+
+Lemma swap_perm l i j : i < length l -> j < length l -> Permutation (swap_p l i j) l.
+Proof.
+  intros Hi Hj. unfold swap_p.
+  assert (P1 := upd_perm l i (el l j) Hi).
+  assert (Hj' : j < length (upd l i (el l j))) by (rewrite length_upd; auto).
+  assert (P2 := upd_perm (upd l i (el l j)) j (el l i) Hj').
+  assert (E : el (upd l i (el l j)) j = el l j).
+  { rewrite el_upd by auto. destruct (j =? i); auto. }
+  rewrite E in P2. eapply Permutation_cons_inv with (a := el l j).
+  eapply perm_trans; [exact P2|]. exact P1.
+Qed.
+
+Section Frame.
+  Variable cmp : N -> N -> Z.
+  Variable setrc : bool.
+
+  Lemma up_perm : forall fuel l i, i < length l -> Permutation (fst (up_p cmp setrc fuel l i)) l.
+  Proof.
+    induction fuel; intros l i Hi; cbn [up_p]; auto.
+    destruct (Nat.eqb_spec i 0); auto. destruct (cmp _ _ >=? 0)%Z; auto. cbn [fst].
+    assert (par i < i) by (apply par_lt; lia).
+    eapply perm_trans; [apply IHfuel | apply swap_perm]; rewrite ?length_swap; lia.
+  Qed.
+
+  Lemma down_perm : forall fuel l i n, n <= length l -> Permutation (fst (down_p cmp setrc fuel l i n)) l.
+  Proof.
+    induction fuel; intros l i n Hn; cbn [down_p]; auto.
+    destruct (Nat.eqb_spec (pick2 cmp l n i) i); auto. cbn [fst].
+    destruct (pick2_cases cmp l n i) as [E | [[E H] | [E H]]]; try contradiction;
+      (eapply perm_trans; [apply IHfuel | apply swap_perm]; rewrite ?length_swap; lia).
+  Qed.
+
+  Lemma up_frame : forall fuel l i k, i < length l -> i < k -> el (fst (up_p cmp setrc fuel l i)) k = el l k.
+  Proof.
+    induction fuel; intros l i k Hi Hk; cbn [up_p]; auto.
+    destruct (Nat.eqb_spec i 0); auto. destruct (cmp _ _ >=? 0)%Z; auto. cbn [fst].
+    assert (par i < i) by (apply par_lt; lia).
+    rewrite IHfuel by (rewrite ?length_swap; lia). rewrite el_swap by lia.
+    destruct (Nat.eqb_spec k (par i)); [lia|]. destruct (Nat.eqb_spec k i); [lia|]. reflexivity.
+  Qed.
+
+  Lemma down_frame : forall fuel l i n k, n <= length l -> n <= k ->
+    el (fst (down_p cmp setrc fuel l i n)) k = el l k.
+  Proof.
+    induction fuel; intros l i n k Hn Hk; cbn [down_p]; auto.
+    destruct (Nat.eqb_spec (pick2 cmp l n i) i); auto. cbn [fst].
+    assert (pick2 cmp l n i < n /\ i < n).
+    { destruct (pick2_cases cmp l n i) as [E | [[E H] | [E H]]]; try contradiction; lia. }
+    rewrite IHfuel by (rewrite ?length_swap; lia). rewrite el_swap by lia.
+    destruct (Nat.eqb_spec k i); [lia|]. destruct (Nat.eqb_spec k (pick2 cmp l n i)); [lia|]. reflexivity.
+  Qed.
+End Frame.
+
+(* ptrheap_delete calls heapify with N = nelems although slot nelems - 1 is a stale copy of the
+   element being sifted: the copy is never chosen (strict comparisons), so the call behaves exactly
+   like heapify on the nelems - 1 elements that remain *)
+Section Stale.
+  Variable cmp : N -> N -> Z.
+  Variable le : N -> N -> Prop.
+  Hypothesis CO : compar_ok cmp le.
+  Variable setrc : bool.
+
+  Lemma cmp_refl_gtb x : (cmp x x >? 0)%Z = false.
+  Proof.
+    destruct (cmp x x >? 0)%Z eqn:E; auto. apply (gtb_true cmp le CO) in E. destruct E as [L NL]. contradiction.
+  Qed.
+
+  Lemma pick2_stale l n i : 0 < n -> i < n - 1 -> el l (n - 1) = el l i ->
+    pick2 cmp l n i = pick2 cmp l (n - 1) i.
+  Proof.
+    intros Hn Hi E. unfold pick2, pick_p.
+    destruct (Nat.ltb_spec (2 * i + 1) (n - 1)) as [H1|H1].
+    - destruct (Nat.ltb_spec (2 * i + 1) n); [|lia].
+      destruct (Nat.ltb_spec (2 * i + 2) (n - 1)) as [H2|H2].
+      + destruct (Nat.ltb_spec (2 * i + 2) n); [|lia]. reflexivity.
+      + destruct (Nat.ltb_spec (2 * i + 2) n) as [H3|H3]; auto.
+        assert (E2 : 2 * i + 2 = n - 1) by lia. rewrite E2, E.
+        destruct (cmp (el l i) (el l (2 * i + 1)) >? 0)%Z eqn:C1.
+        * apply (gtb_true cmp le CO) in C1. destruct C1 as [L _].
+          destruct (cmp (el l (2 * i + 1)) (el l i) >? 0)%Z eqn:C2; auto.
+          apply (gtb_true cmp le CO) in C2. destruct C2 as [_ NL]. contradiction.
+        * rewrite cmp_refl_gtb. reflexivity.
+    - destruct (Nat.ltb_spec (2 * i + 2) (n - 1)); [lia|].
+      destruct (Nat.ltb_spec (2 * i + 2) n); [lia|].
+      destruct (Nat.ltb_spec (2 * i + 1) n) as [H3|H3]; auto.
+      assert (E1 : 2 * i + 1 = n - 1) by lia. rewrite E1, E, cmp_refl_gtb. reflexivity.
+  Qed.
+
+  Lemma down_stale : forall fuel l i n, 0 < n -> n <= length l -> i < n - 1 -> el l (n - 1) = el l i ->
+    down_p cmp setrc fuel l i n = down_p cmp setrc fuel l i (n - 1).
+  Proof.
+    induction fuel; intros l i n Hn Hl Hi E; cbn [down_p]; auto.
+    rewrite <- pick2_stale by auto.
+    destruct (Nat.eqb_spec (pick2 cmp l n i) i); auto.
+    assert (Hm : pick2 cmp l n i < n - 1 /\ i < pick2 cmp l n i).
+    { rewrite pick2_stale in * by auto.
+      destruct (pick2_cases cmp l (n - 1) i) as [E' | [[E' H] | [E' H]]]; try contradiction; lia. }
+    rewrite IHfuel; auto.
+    - rewrite length_swap. auto.
+    - lia.
+    - rewrite !el_swap by lia.
+      destruct (Nat.eqb_spec (n - 1) i); [lia|].
+      destruct (Nat.eqb_spec (n - 1) (pick2 cmp l n i)); [lia|].
+      destruct (Nat.eqb_spec (pick2 cmp l n i) i); [lia|]. rewrite Nat.eqb_refl. auto.
+  Qed.
+End Stale.
+
+(* ---------------- Part D: handles ---------------- *)
+(* [pos] is the caller's table: the position most recently passed to setreccookie for each id *)
+Definition handles_upto (m : nat) (pos : N -> option nat) (l : list N) : Prop :=
+  forall i, i < m -> pos (el l i) = Some i.
+
+Lemma apply_notes_app pos a b : apply_notes pos (a ++ b) = apply_notes (apply_notes pos a) b.
+Proof. unfold apply_notes. apply fold_left_app. Qed.
+
+Lemma handles_inj m pos l i j : handles_upto m pos l -> i < m -> j < m -> el l i = el l j -> i = j.
+Proof.
+  intros H Hi Hj E. assert (A := H i Hi). assert (B := H j Hj). rewrite E in A. congruence.
+Qed.
+
+Lemma handles_swap m pos l i j : handles_upto m pos l -> i < m -> j < m -> m <= length l ->
+  handles_upto m (apply_notes pos (swap_notes l i j true)) (swap_p l i j).
+Proof.
+  intros H Hi Hj Hm k Hk. unfold swap_notes, apply_notes. cbn [fold_left]. unfold pos_upd. cbn [fst snd].
+  rewrite el_swap by lia.
+  destruct (Nat.eqb_spec k j) as [->|Hkj].
+  - rewrite N.eqb_refl. reflexivity.
+  - destruct (Nat.eqb_spec k i) as [->|Hki].
+    + destruct (N.eqb_spec (el l j) (el l i)) as [E|E].
+      * exfalso. apply Hkj. symmetry. eapply handles_inj; eauto.
+      * rewrite N.eqb_refl. reflexivity.
+    + destruct (N.eqb_spec (el l k) (el l i)) as [E|E].
+      { exfalso. apply Hki. eapply handles_inj; eauto. }
+      destruct (N.eqb_spec (el l k) (el l j)) as [E'|E'].
+      { exfalso. apply Hkj. eapply handles_inj; eauto. }
+      apply H; auto.
+Qed.
+
+Section Handles.
+  Variable cmp : N -> N -> Z.
+
+  Lemma up_handles : forall fuel l i m pos, handles_upto m pos l -> i < m -> m <= length l ->
+    handles_upto m (apply_notes pos (snd (up_p cmp true fuel l i))) (fst (up_p cmp true fuel l i)).
+  Proof.
+    induction fuel; intros l i m pos H Hi Hm; cbn [up_p]; auto.
+    destruct (Nat.eqb_spec i 0); auto. destruct (cmp _ _ >=? 0)%Z; auto. cbn [fst snd].
+    assert (par i < i) by (apply par_lt; lia).
+    rewrite apply_notes_app. apply IHfuel; rewrite ?length_swap; try lia.
+    apply handles_swap; auto; lia.
+  Qed.
+
+  Lemma down_handles : forall fuel l i n m pos, handles_upto m pos l -> n <= m -> m <= length l ->
+    handles_upto m (apply_notes pos (snd (down_p cmp true fuel l i n))) (fst (down_p cmp true fuel l i n)).
+  Proof.
+    induction fuel; intros l i n m pos H Hn Hm; cbn [down_p]; auto.
+    destruct (Nat.eqb_spec (pick2 cmp l n i) i); auto. cbn [fst snd].
+    assert (pick2 cmp l n i < n /\ i < n).
+    { destruct (pick2_cases cmp l n i) as [E | [[E H'] | [E H']]]; try contradiction; lia. }
+    rewrite apply_notes_app. apply IHfuel; rewrite ?length_swap; try lia.
+    apply handles_swap; auto; lia.
+  Qed.
+End Handles.
+
+Lemma apply_notes_notin : forall ns pos x, ~ In x (map fst ns) -> apply_notes pos ns x = pos x.
+Proof.
+  induction ns as [|[a p] ns IH]; intros pos x H; auto.
+  change (apply_notes pos ((a, p) :: ns)) with (apply_notes (pos_upd pos (a, p)) ns).
+  rewrite IH by (intro; apply H; right; auto).
+  unfold pos_upd. cbn [fst snd]. destruct (N.eqb_spec x a); auto. subst. exfalso. apply H. left. reflexivity.
+Qed.
+
+Lemma notify_all_fst : forall l k, map fst (notify_all l k) = l.
+Proof. induction l; intros; simpl; auto. rewrite IHl. reflexivity. Qed.
+
+Lemma notify_all_handles : forall l k pos, NoDup l ->
+  forall i, i < length l -> apply_notes pos (notify_all l k) (el l i) = Some (k + i).
+Proof.
+  induction l as [|a l IH]; intros k pos ND i Hi; simpl in Hi. lia.
+  inversion ND as [|? ? Hnot ND']; subst.
+  change (apply_notes pos (notify_all (a :: l) k)) with (apply_notes (pos_upd pos (a, k)) (notify_all l (S k))).
+  destruct i as [|i].
+  - change (el (a :: l) 0) with a. rewrite apply_notes_notin by (rewrite notify_all_fst; auto).
+    unfold pos_upd. cbn [fst snd]. rewrite N.eqb_refl. f_equal. lia.
+  - change (el (a :: l) (S i)) with (el l i). rewrite IH by (auto; lia). f_equal. lia.
+Qed.
+
+Lemma el_In (l : list N) i : i < length l -> In (el l i) l.
+Proof. intros. unfold el. apply nth_In. auto. Qed.
+
+Lemma In_el (l : list N) x : In x l -> exists i, i < length l /\ el l i = x.
+Proof. intros H. destruct (In_nth l x 0%N H) as (i & Hi & E). exists i. auto. Qed.
+
+(* what a caller relies on: the position last notified for an element of the heap holds it *)
+Lemma handles_lookup pos l x : handles_upto (length l) pos l -> In x l ->
+  exists p, pos x = Some p /\ nth_error l p = Some x.
+Proof.
+  intros H Hx. destruct (In_el l x Hx) as (i & Hi & E). exists i. split.
+  - rewrite <- E. apply H. auto.
+  - rewrite <- E. unfold el. apply nth_error_nth'. auto.
+Qed.
+
+(* ---------------- Part E: the operations ---------------- *)
+Definition std_hc : heapconsts :=
+  {| c_hsz := 40; c_easz := 24; c_reclen := 8; c_gmul := 2; c_sdiv := 4; c_smul := 2 |}.
+
+Local Open Scope N_scope.
+
+(* the outcomes of the array's resize() for requests below 2^63 bytes: never an assertion failure *)
+Inductive resize_res (alloc nsize : N) (o : oracle) : bool * N * oracle * list aev -> Prop :=
+| RR_keep : alloc <> 0 -> nsize <= alloc -> resize_res alloc nsize o (true, alloc, o, [])
+| RR_zero : nsize = 0 -> resize_res alloc nsize o (true, 0, o, free_buf_ev alloc)
+| RR_ok nalloc : nalloc <> 0 -> nalloc <> alloc -> nsize <= nalloc -> fst (next o) = true ->
+    resize_res alloc nsize o (true, nalloc, snd (next o), [ARealloc (blk alloc) nalloc true])
+| RR_fail nalloc : nalloc <> 0 -> nalloc <> alloc -> fst (next o) = false ->
+    resize_res alloc nsize o (false, alloc, snd (next o), [ARealloc (blk alloc) nalloc false]).
+
+Lemma ea_resize_cases alloc nsize o : nsize < 2 ^ 63 ->
+  exists r, ea_resize std_hc alloc nsize o = Ok r /\ resize_res alloc nsize o r.
+Proof.
+  intros Hs. unfold ea_resize. cbn [c_gmul c_sdiv c_smul std_hc].
+  set (nalloc := if alloc <? nsize then
+                   (if (alloc * 2) mod W64 <? nsize then nsize else (alloc * 2) mod W64)
+                 else if nsize <? alloc / 4 then (nsize * 2) mod W64 else alloc).
+  assert (HW : W64 = 2 ^ 64) by reflexivity.
+  assert (Hn : nsize <= nalloc /\ (nalloc = 0 -> nsize = 0)).
+  { unfold nalloc. destruct (N.ltb_spec alloc nsize).
+    - destruct (N.ltb_spec ((alloc * 2) mod W64) nsize); lia.
+    - destruct (N.ltb_spec nsize (alloc / 4)).
+      + rewrite N.mod_small by (rewrite HW; lia). lia.
+      + lia. }
+  destruct Hn as [Hle Hz].
+  destruct (N.eqb_spec nalloc 0) as [E0|E0].
+  - rewrite (Hz E0), N.eqb_refl. eexists. split; [reflexivity|]. apply RR_zero. auto.
+  - destruct (N.eqb_spec nalloc alloc) as [Ea|Ea]; cbn [negb].
+    + eexists. split; [reflexivity|]. rewrite <- Ea. apply RR_keep; lia.
+    + destruct (next o) as [ok o'] eqn:En. destruct ok.
+      * eexists. split; [reflexivity|].
+        replace o' with (snd (next o)) by (rewrite En; reflexivity).
+        apply RR_ok; auto. rewrite En. reflexivity.
+      * eexists. split; [reflexivity|].
+        replace o' with (snd (next o)) by (rewrite En; reflexivity).
+        apply RR_fail; auto. rewrite En. reflexivity.
+Qed.
+
+Local Close Scope N_scope.
+
+Definition small (n : nat) : Prop := (N.of_nat n * 8 + 8 < 2 ^ 63)%N.
+
+Lemma bytes_small n : small n -> bytes std_hc n = (N.of_nat n * 8)%N.
+Proof.
+  intros H. unfold bytes, small in *. cbn [c_reclen std_hc]. apply N.mod_small.
+  change W64 with (2 ^ 64)%N. lia.
+Qed.
